@@ -11,6 +11,10 @@ class Broken(Exception):
     """The checker cannot decide (anchor missing, floor not met, empty facts): exit 2."""
 
 
+import re as _re
+_FACADE = _re.compile(r'(?<![A-Za-z0-9_:])(?:(?:lightning_signer|vls_protocol_signer|vls_protocol|vls_common|vls_persist)::)?(?:core|alloc)::')
+
+
 class Def:
     __slots__ = ("id", "name", "kind", "krate", "local", "file", "line", "params", "pub",
                  "container", "item_name", "root", "is_bin", "captures")
@@ -396,6 +400,8 @@ class Program:
         nbodies = 0
         with open(path) as fh:
             for line in fh:
+                # no_std builds spell the facade paths core:: / alloc:: (or <crate>::alloc::): one spelling for all
+                line = _FACADE.sub("std::", line)
                 o = json.loads(line)
                 k = o["k"]
                 if k == "crate":
